@@ -20,7 +20,7 @@ RULE = ("period {1,2.5,10,3600(jump)} x duration profile {constant, growing, shr
 ASSUMPTIONS = ["Redis and RabbitMQ are wire-level fakes", "virtual time", "cron schedules not reachable (croniter absent)",
                "scheduled time of an iteration = the next_execution_time its message carried (for the first: deferred_until or timestamp+period)"]
 EVAL_COUNTER = "iterations_judged"
-REQUIRED = ["iterations_judged", "profile_shrinking", "profile_longer", "outcome_retry", "outcome_exhausted", "outcome_eager_exhausted", "outcome_store_fault", "first_run_deferred_until"]
+REQUIRED = ["iterations_judged", "profile_shrinking", "profile_longer", "outcome_retry", "outcome_exhausted", "outcome_eager_exhausted", "outcome_store_fault", "first_run_deferred_until", "twin_chains_judged"]
 CASE_TIMEOUT = 150
 
 PROFILES = ["constant", "growing", "shrinking", "sawtooth", "longer"]
@@ -41,8 +41,15 @@ def gen_cases(tier, seed):
                         cases.append({"kind": kind, "p": p, "profile": prof, "outcomes": oc, "du": du, "iters": rnd.choice([8, 12]) if p >= 10 else rnd.choice([10, 16, 25]),
                                       "seed": rnd.randrange(10**6), "latency": None if kind == "mem" else 0.002})
         cases.append({"kind": kind, "p": 3600.0, "profile": "constant", "outcomes": "ok", "du": "none", "iters": 6, "seed": rnd.randrange(10**6), "latency": None, "jump": True})
+    # twins: two recurring jobs with the same actor name and the same id that differ only in queue (two workers) or only
+    # in priority (one worker); their executions overlap in every iteration, each chain keeps its own successor
+    for kind in ("mem", "redis", "rabbit"):
+        for variant in ("queues", "priorities"):
+            for dA, dB in ([(0.2, 0.6), (0.6, 0.2)] if tier == "quick" else [(0.2, 0.6), (0.6, 0.2), (0.05, 0.9), (0.4, 0.45), (0.3, 1.3)]):
+                cases.append({"twins": variant, "kind": kind, "p": 2.5, "dA": dA, "dB": dB, "iters": 6 if tier == "quick" else 10,
+                              "seed": rnd.randrange(10**6), "latency": None if kind == "mem" else 0.002})
     if tier == "thorough":
-        cases += [dict(c, seed=c["seed"] + 1, iters=25 if c["p"] < 10 else 12) for c in cases if c["kind"] == "mem"]
+        cases += [dict(c, seed=c["seed"] + 1, iters=25 if c["p"] < 10 else 12) for c in cases if c["kind"] == "mem" and not c.get("twins")]
     return cases
 
 
@@ -195,6 +202,9 @@ async def scenario(loop, case, out, stats, fps, samples):
                 finals_per_iter[cur_iter] += 1
             elif e["k"] == "call" and e.get("depth") == 0 and e.get("op") in ("ack", "nack"):
                 out.append(V("no_successor", kind, ctx, f"iteration {cur_iter} ended with {e['op']} instead of a reschedule"))
+        lost = [e for e in ev if e["k"] == "actor_start" and e.get("retries_max") not in (None, 2)]
+        if lost:
+            out.append(V("no_successor", kind, "retry-budget-lost", f"the job was enqueued with retries=2; iteration {lost[0].get('iteration')} (attempt {lost[0]['attempt']}) carries a budget of {lost[0]['retries_max']}"))
         for it, cnt in finals_per_iter.items():
             if cnt > 1:
                 out.append(V("two_successors", kind, ctx, f"iteration {it}: {cnt} reschedules"))
@@ -237,12 +247,86 @@ async def scenario(loop, case, out, stats, fps, samples):
         await w.close()
 
 
+async def twins_scenario(loop, case, out, stats, fps, samples):
+    from repid import PrioritiesT
+
+    from rv.wl import World
+
+    kind, p, variant, n = case["kind"], case["p"], case["twins"], case["iters"]
+    w = World(loop, kind, converter="basic", seed=case["seed"], latency=case["latency"])
+    try:
+        await w.open()
+        loop.jump(1.37)
+        if variant == "queues":
+            chains = {"A": ("qa", PrioritiesT.MEDIUM), "B": ("qb", PrioritiesT.MEDIUM)}
+        else:
+            chains = {"A": ("qa", PrioritiesT.HIGH), "B": ("qa", PrioritiesT.LOW)}
+        routers = {}
+        for qn in sorted({q for q, _ in chains.values()}):
+            routers[qn] = w.router(retry_policy=lambda retry_number=1: timedelta(seconds=0.1))
+            w.scripted_actor(routers[qn], "act", queue=qn)
+            await w.conn.message_broker.queue_declare(qn)
+        for c, (qn, prio) in chains.items():
+            d = case["d" + c] * p
+            await w.job("act", "r1", {"do": "ok", "d": d, "ret": {"chain": c}, "label": c}, queue=qn, priority=prio, deferred_by=timedelta(seconds=p), retries=1,
+                        timeout=timedelta(seconds=3 * p), store_result=False, args_id=f"args-{c}", result_id=f"res-{c}").enqueue()
+        workers = [w.worker([r], tasks_limit=10, graceful_shutdown_time=3 * p, handle_signals=[], messages_limit=n if variant == "queues" else 2 * n) for r in routers.values()]
+        tasks = [loop.create_task(wk.run()) for wk in workers]
+        horizon = (n + 4) * max(p, case["dA"] * p, case["dB"] * p) + 10
+        done, pending = await asyncio.wait(tasks, timeout=horizon)
+        for t in pending:
+            out.append(V("worker_died", kind, "twins/no-return", f"a worker limited to {n} executions of a job recurring every {p}s had not returned after {horizon:.0f}s"))
+            t.cancel()
+        for t in done:
+            if t.exception() is not None:
+                out.append(V("worker_died", kind, "twins/run", f"Worker.run raised {t.exception()!r}"))
+        await asyncio.sleep(0.3)
+        ev = w.log.events
+        ctx = f"twins/{variant}"
+        places = w.rig.snapshot(detail=True).get("r1", [])
+        held = [(pl, qn) for pl, qn, _ in places if pl == "held"]
+        total = 0
+        for c, (qn, prio) in chains.items():
+            mine = lambda e: e.get("id") == "r1" and e.get("queue") == qn and e.get("prio") == prio.value  # noqa: E731
+            runs = [e for e in ev if e.get("k") == "actor_start" and e.get("label") == c]
+            calls = [e for e in ev if e.get("k") == "call" and e.get("depth") == 0 and e.get("op") in ("ack", "nack", "reject", "requeue") and mine(e)]
+            rs = [e for e in calls if e["op"] == "requeue" and (e.get("params") or {}).get("tried") == 0]
+            stats["iterations_judged"] += len(rs)
+            stats["twin_iterations"] += len(rs)
+            total += len(runs)
+            if len(rs) != len(runs):
+                out.append(V("two_successors" if len(rs) > len(runs) else "no_successor", kind, ctx, f"chain {c} ({qn}, priority {prio.value}): {len(runs)} runs, {len(rs)} reschedules"))
+            want = n if variant == "queues" else n - 2
+            if len(runs) < want:
+                out.append(V("no_successor", kind, ctx, f"chain {c} ({qn}, priority {prio.value}) of two recurring jobs sharing actor name and id ran {len(runs)} time(s) in {horizon:.0f}s while "
+                                                         f"its twin kept running: after its iteration {len(runs)} no successor was ever delivered (expected {want}+ runs)"))
+            live = [pl for pl, q_, pr_ in places if pl in ("delayed", "waiting") and q_ == qn and pr_ == prio.value]
+            if len(live) != 1:
+                last = calls[-1]["op"] if calls else None
+                # what the worker did last with the chain's message tells the mechanisms apart: a successor written by
+                # requeue that is nowhere, or a taken successor handed back (limit reached / consumer finished) that is nowhere
+                mech = {"requeue": "successor-never-stored", "reject": "handed-back-successor-gone"}.get(last, f"after-{last}")
+                out.append(V("no_successor" if not live else "two_successors", kind, f"twins/final-state/{mech}",
+                             f"chain {c} ({qn}, priority {prio.value}): after both chains ran {len(runs)} times its successor is at {live or 'no queue'} (all places of id r1: {places}); last broker call for it: {last}"))
+        if variant == "priorities" and total != 2 * n:
+            out.append(V("no_successor" if total < 2 * n else "two_successors", kind, ctx, f"{total} executions instead of {2 * n}"))
+        if held:
+            out.append(V("two_successors", kind, "twins/final-state/old-iterations-still-unsettled", f"both workers have returned, yet {len(held)} deliveries of earlier iterations are still unsettled at the broker ({held[:3]}...): "
+                                                                                                     f"they come back once the connection closes, next to the successors already scheduled"))
+        fps.add(f"{kind}/twins/{variant}/{case['dA']}/{case['dB']}")
+        stats["twin_chains_judged"] += 2
+        stats["unknown_server_commands"] += w.rig.unknown_commands()
+    finally:
+        await w.close()
+
+
 def run_case(case):
     from rv.sim import loop as vl
 
     stats = collections.Counter()
     out, fps, samples = [], set(), []
-    res = vl.run(lambda loop: scenario(loop, case, out, stats, fps, samples), max_steps=8_000_000, seed=case["seed"])
+    sc = twins_scenario if case.get("twins") else scenario
+    res = vl.run(lambda loop: sc(loop, case, out, stats, fps, samples), max_steps=8_000_000, seed=case["seed"])
     if res.exc is not None:
         if isinstance(res.exc, vl.StepLimit):
             return {"fp": None, "viol": [], "stats": dict(stats), "inconclusive": str(res.exc)}
